@@ -340,9 +340,15 @@ void do_plan_action(C& c, const SutAction& a, Last& last, SutView& v) {
 	auto p = c.plan();
 	switch (a.kind) {
 	case A_PLAN_APPEND:
+#if SUT_TYPED
+		if (a.mask[30]) { last.result = typed_plan_change(p, a.a, a.b) ? 1 : 0; break; }
+#endif
 		last.result = p.change(a.a, a.b) ? 1 : 0; break;
 	case A_PLAN_APPEND_WITH:
 #if SUT_HAS_PAYLOAD
+#if SUT_TYPED
+		if (a.mask[30]) { last.result = typed_plan_change_with(p, a.a, a.b, PLK::unpack(a.payload)) ? 1 : 0; break; }
+#endif
 		last.result = p.changeWith(a.a, a.b, PLK::unpack(a.payload)) ? 1 : 0;
 #else
 		last.result = p.change(a.a, a.b) ? 1 : 0;
@@ -368,6 +374,54 @@ void do_plan_action(C& c, const SutAction& a, Last& last, SutView& v) {
 }
 #endif
 
+// typed (template) forms of the API, dispatched over the state list; only for small machines (compile time)
+#if SUT_N <= 17
+#define SUT_TYPED 1
+template <typename C> void typed_change_to(C& c, unsigned k) {
+	switch (k) {
+#define X(i) case i: c.template changeTo<St<i> >(); break;
+	SUT_STATES(X)
+#undef X
+	default: break; }
+}
+#if SUT_HAS_PAYLOAD
+template <typename C> void typed_change_with(C& c, unsigned k, const Payload& p) {
+	switch (k) {
+#define X(i) case i: c.template changeWith<St<i> >(p); break;
+	SUT_STATES(X)
+#undef X
+	default: break; }
+}
+#endif
+#if SF_PLANS
+template <typename C> void typed_report(C& c, unsigned k, bool success) {
+	switch (k) {
+#define X(i) case i: if (success) c.template succeed<St<i> >(); else c.template fail<St<i> >(); break;
+	SUT_STATES(X)
+#undef X
+	default: break; }
+}
+template <typename P> bool typed_plan_change(P& p, unsigned o, unsigned d) {
+	switch (o) {
+#define X(i) case i: return p.template change<St<i> >(static_cast<ffsm2::StateID>(d));
+	SUT_STATES(X)
+#undef X
+	default: return false; }
+}
+#if SUT_HAS_PAYLOAD
+template <typename P> bool typed_plan_change_with(P& p, unsigned o, unsigned d, const Payload& pl) {
+	switch (o) {
+#define X(i) case i: return p.template changeWith<St<i> >(static_cast<ffsm2::StateID>(d), pl);
+	SUT_STATES(X)
+#undef X
+	default: return false; }
+}
+#endif
+#endif
+#else
+#define SUT_TYPED 0
+#endif
+
 template <typename C, int F> struct Performer;
 
 template <typename C> struct Performer<C, CF_CONST> {
@@ -385,9 +439,16 @@ template <typename C> struct Performer<C, CF_PLAN> {
 template <typename C>
 void do_full_action(C& c, const SutAction& a, Last& last, SutView& v) {
 	switch (a.kind) {
-	case A_CHANGE_TO:   c.changeTo(a.a); last.result = 1; break;
+	case A_CHANGE_TO:
+#if SUT_TYPED
+		if (a.mask[30]) { typed_change_to(c, a.a); last.result = 1; break; }
+#endif
+		c.changeTo(a.a); last.result = 1; break;
 	case A_CHANGE_WITH:
 #if SUT_HAS_PAYLOAD
+#if SUT_TYPED
+		if (a.mask[30]) { typed_change_with(c, a.a, PLK::unpack(a.payload)); last.result = 1; break; }
+#endif
 		c.changeWith(a.a, PLK::unpack(a.payload));
 #else
 		c.changeTo(a.a);
@@ -396,8 +457,16 @@ void do_full_action(C& c, const SutAction& a, Last& last, SutView& v) {
 #if SF_PLANS
 	case A_SUCCEED_SELF: if (c.stateId() != ffsm2::INVALID_STATE_ID) { c.succeed(); last.result = 1; } break;
 	case A_FAIL_SELF:    if (c.stateId() != ffsm2::INVALID_STATE_ID) { c.fail();    last.result = 1; } break;
-	case A_SUCCEED:      c.succeed(a.a); last.result = 1; break;
-	case A_FAIL:         c.fail   (a.a); last.result = 1; break;
+	case A_SUCCEED:
+#if SUT_TYPED
+		if (a.mask[30]) { typed_report(c, a.a, true); last.result = 1; break; }
+#endif
+		c.succeed(a.a); last.result = 1; break;
+	case A_FAIL:
+#if SUT_TYPED
+		if (a.mask[30]) { typed_report(c, a.a, false); last.result = 1; break; }
+#endif
+		c.fail   (a.a); last.result = 1; break;
 	case A_PLAN_APPEND: case A_PLAN_APPEND_WITH: case A_PLAN_REMOVE_NTH: case A_PLAN_CLEAR: case A_PLAN_WALK:
 		do_plan_action(c, a, last, v); break;
 #endif
@@ -504,6 +573,15 @@ template <unsigned I> struct StBase<I, K_PARTIAL> : FSM::State {
 	void exit      (PlanControl&  c) { run_hook<CF_PLAN >(c, M_EXIT,        I, 0, this, SUT_INVALID, 0, 0, TMPL_STATE(c), ++hits_); }
 };
 
+template <unsigned I> struct StBase<I, K_PARTIAL2> : FSM::State {
+	mutable uint32_t hits_ = 0;
+	void reenter   (PlanControl&  c) { run_hook<CF_PLAN >(c, M_REENTER,     I, 0, this, SUT_INVALID, 0, 0, TMPL_STATE(c), ++hits_); }
+	void preUpdate (FullControl&  c) { run_hook<CF_FULL >(c, M_PRE_UPDATE,  I, 0, this, SUT_INVALID, 0, 0, TMPL_STATE(c), ++hits_); }
+	template <typename E> void react(const E& e, FullControl& c) { run_hook<CF_FULL>(c, M_REACT, I, 0, this, EvId<E>::ID, e.v, &e, TMPL_STATE(c), ++hits_); }
+	template <typename E> void query(E& e, ConstControl& c) const { run_hook<CF_CONST>(c, M_QUERY, I, 0, this, EvId<E>::ID, e.v, &e, TMPL_STATE(c), ++hits_); }
+	void exitGuard (GuardControl& c) { run_hook<CF_GUARD>(c, M_EXIT_GUARD,  I, 0, this, SUT_INVALID, 0, 0, TMPL_STATE(c), ++hits_); }
+};
+
 // one injection, and a state class that defines nothing itself: every callback must reach the injection exactly once
 template <unsigned I> struct StBase<I, K_INJ1N> : FSM::StateT<Inj<I, 1> > {};
 
@@ -597,6 +675,8 @@ void set_defines(uint8_t* row, int kind, bool root) {
 	if (kind == K_FULL || kind == K_INJ1 || kind == K_INJ2 || kind == K_INJ3 || kind == K_INJ1N) {
 		for (int m = M_ENTRY_GUARD; m <= M_EXIT; ++m) row[m] = 1;
 		if (root && SF_PLANS) { row[M_PLAN_SUCCEEDED] = 1; row[M_PLAN_FAILED] = 1; }
+	} else if (kind == K_PARTIAL2) {
+		row[M_REENTER] = row[M_PRE_UPDATE] = row[M_REACT] = row[M_QUERY] = row[M_EXIT_GUARD] = 1;
 	} else if (kind == K_PARTIAL) {
 		row[M_ENTRY_GUARD] = row[M_ENTER] = row[M_UPDATE] = row[M_POST_REACT] = row[M_EXIT] = 1;
 		if (root && SF_PLANS) row[M_PLAN_FAILED] = 1;
@@ -612,6 +692,25 @@ using namespace sut;
 
 //------------------------------------------------------------------------------------------------
 // driver table
+
+#if SUT_TYPED
+template <typename M> void inst_change_to(M& m, unsigned k, bool imm) {
+	switch (k) {
+#define X(i) case i: if (imm) m.template immediateChangeTo<St<i> >(); else m.template changeTo<St<i> >(); break;
+	SUT_STATES(X)
+#undef X
+	default: break; }
+}
+#if SUT_HAS_PAYLOAD
+template <typename M> void inst_change_with(M& m, unsigned k, bool imm, const Payload& p) {
+	switch (k) {
+#define X(i) case i: if (imm) m.template immediateChangeWith<St<i> >(p); else m.template changeWith<St<i> >(p); break;
+	SUT_STATES(X)
+#undef X
+	default: break; }
+}
+#endif
+#endif
 
 extern "C" {
 
@@ -738,6 +837,37 @@ int sut_immediate_change_with(void* inst, int dest, const uint8_t* p) { I_(inst)
 #else
 int sut_change_with(void*, int, const uint8_t*)           { return -1; }
 int sut_immediate_change_with(void*, int, const uint8_t*) { return -1; }
+#endif
+
+int sut_typed_available(void) { return SUT_TYPED; }
+#if SUT_TYPED
+int sut_change_to_typed(void* inst, int dest, int immediate, const uint8_t* pl) {
+#if SUT_HAS_PAYLOAD
+	if (pl) { inst_change_with(*I_(inst), static_cast<unsigned>(dest), immediate != 0, PLK::unpack(pl)); return 1; }
+#else
+	(void) pl;
+#endif
+	inst_change_to(*I_(inst), static_cast<unsigned>(dest), immediate != 0); return 1;
+}
+#if SF_PLANS
+int sut_report_typed(void* inst, int id, int success) { typed_report(*I_(inst), static_cast<unsigned>(id), success != 0); return 1; }
+int sut_plan_append_typed(void* inst, int o, int d, const uint8_t* pl) {
+	auto p = I_(inst)->plan();
+#if SUT_HAS_PAYLOAD
+	if (pl) return typed_plan_change_with(p, static_cast<unsigned>(o), static_cast<unsigned>(d), PLK::unpack(pl)) ? 1 : 0;
+#else
+	(void) pl;
+#endif
+	return typed_plan_change(p, static_cast<unsigned>(o), static_cast<unsigned>(d)) ? 1 : 0;
+}
+#else
+int sut_report_typed(void*, int, int) { return -1; }
+int sut_plan_append_typed(void*, int, int, const uint8_t*) { return -1; }
+#endif
+#else
+int sut_change_to_typed(void*, int, int, const uint8_t*) { return -1; }
+int sut_report_typed(void*, int, int) { return -1; }
+int sut_plan_append_typed(void*, int, int, const uint8_t*) { return -1; }
 #endif
 
 #if SF_PLANS
